@@ -493,8 +493,28 @@ impl OtlpTransportBuilder {
                         let metrics = metrics.clone();
 
                         async move {
-                            let mut status = 0;
-                            let mut msg = String::new();
+                            // A response that isn't 2xx never came from the gRPC service itself;
+                            // it won't carry a `grpc-status` but is still a failure
+                            let http_status = res.http_status();
+
+                            if !(http_status >= 200 && http_status < 300) {
+                                metrics.grpc_batch_failed.increment();
+
+                                return Err(Error::msg(format_args!(
+                                    "OTLP gRPC server responded with HTTP status {http_status}"
+                                )));
+                            }
+
+                            // A trailers-only response, which is how servers typically report errors,
+                            // carries its `grpc-status` in the response headers instead of in trailers
+                            let mut status = res
+                                .header("grpc-status")
+                                .map(|v| v.parse().unwrap_or(0))
+                                .unwrap_or(0);
+                            let mut msg = res
+                                .header("grpc-message")
+                                .map(String::from)
+                                .unwrap_or_default();
 
                             res.stream_payload(
                                 |_| {},
